@@ -874,3 +874,123 @@ func ruleOnlyKnownConstantKeys(c *Ctx, rule string) {
 	}
 	_ = n
 }
+
+// ruleMemoListsAreCopied — C07.R9: the process-wide memo of rendered method sets is shared by every router; what
+// Methods() and Routes() hand to the user is a copy of its lists (the obligations are those of C04.R5).
+func ruleMemoListsAreCopied(c *Ctx, rule string) {
+	sub := an.NewReport(c.R.Property)
+	cc := &Ctx{P: c.P, A: c.A, R: sub, O: c.O}
+	ruleSummaryRendering(cc, "X")
+	c.R.Rule(c.R.Property+"."+rule, 2, "method lists handed to the user are copies of the process-wide memo")
+	for _, o := range sub.Obls {
+		if strings.Contains(o.Construct, "copy-of-memo-list") {
+			c.R.Add(rule, o.Func, o.Construct, o.At, o.OK, o.Msg)
+		}
+	}
+}
+
+// ruleConstructorsOwnTheirLists — C15.R6 / C07.R10: the version matchers keep a list for as long as they live. It
+// is a list of their own: the constructors neither write into the slice the caller passed (the variadic argument is
+// the caller's slice when it is spread with `vs...`) nor keep that slice. Otherwise a second matcher built from the
+// same list sees the first one's normalised "/v1/" forms, and a caller that reuses its slice changes what a
+// finished matcher accepts.
+func ruleConstructorsOwnTheirLists(c *Ctx, rule string) {
+	c.R.Rule(c.R.Property+"."+rule, 2, "a matcher's version list is its own: the caller's slice is neither written nor kept")
+	for _, key := range []string{"mux.NewPathVersion", "mux.NewHeaderVersion"} {
+		f := c.P.MustFunc(key)
+		var listPar *ssa.Parameter
+		for _, p := range f.Params {
+			if sl, ok := p.Type().Underlying().(*types.Slice); ok && isStringType(sl.Elem()) {
+				listPar = p
+			}
+		}
+		if listPar == nil {
+			continue
+		}
+		writes, keeps := "", ""
+		an.AllInstrs(f, func(in ssa.Instruction) {
+			st, ok := in.(*ssa.Store)
+			if !ok {
+				return
+			}
+			if ia, isIA := st.Addr.(*ssa.IndexAddr); isIA && ia.X == ssa.Value(listPar) {
+				writes = c.pos(in)
+			}
+			if _, isFA := st.Addr.(*ssa.FieldAddr); isFA && st.Val == ssa.Value(listPar) {
+				keeps = c.pos(in)
+			}
+		})
+		good := writes == "" && keeps == ""
+		why := ""
+		if writes != "" {
+			why = "writes into the caller's slice at " + writes
+		}
+		if keeps != "" {
+			why += ifelse(why == "", "", " and ") + "keeps the caller's slice at " + keeps
+		}
+		c.R.Add(rule, key, "version-list/own-copy", c.P.Pos(f.Pos()), good, ifelse(good, "the matcher fills / clones a slice of its own", "the constructor "+why+": a matcher built from the same list afterwards, or a caller that reuses the slice, changes which versions this matcher accepts"))
+	}
+}
+
+// ruleHeaderVersionLookup — C15.R7: how the header-version matcher reads the parsed media type.
+//
+//	(a) mime.ParseMediaType returns parameter names in lower case: the key the matcher looks up is lower-cased when
+//	    the matcher is built (or is the lower-case default) — a configured "Version" would otherwise never be found;
+//	(b) the parameter is read with the comma-ok form: a media type without the parameter carries no version at all,
+//	    it does not carry the version "".
+func ruleHeaderVersionLookup(c *Ctx, rule string) {
+	c.R.Rule(c.R.Property+"."+rule, 2, "the configured parameter is looked up the way ParseMediaType returns it: lower-cased name, present or absent")
+	ctor := c.P.MustFunc("mux.NewHeaderVersion")
+	n := 0
+	an.AllInstrs(ctor, func(in ssa.Instruction) {
+		_, field, val, ok := fieldStoreAny(in)
+		if !ok || field != "acceptKey" {
+			return
+		}
+		n++
+		var lowered func(v ssa.Value, depth int) bool
+		lowered = func(v ssa.Value, depth int) bool {
+			if depth > 3 {
+				return false
+			}
+			if s, isC := strConst(v); isC {
+				return s == strings.ToLower(s)
+			}
+			switch x := v.(type) {
+			case *ssa.Call:
+				return an.CalleeName(&x.Call) == "strings.ToLower"
+			case *ssa.Phi:
+				for _, e := range x.Edges {
+					if !lowered(e, depth+1) {
+						return false
+					}
+				}
+				return len(x.Edges) > 0
+			}
+			return false
+		}
+		good := lowered(val, 0)
+		c.R.Add(rule, c.fk(ctor), "store:acceptKey/lower-cased", c.pos(in), good, ifelse(good, "the key is lower-cased (or the lower-case default)", "the key is stored as configured ("+c.O.Of(val).String()+"): ParseMediaType lower-cases parameter names, so a key with an upper-case letter never matches any request"))
+	})
+	if n == 0 {
+		c.R.Add(rule, c.fk(ctor), "store:acceptKey/lower-cased", c.P.Pos(ctor.Pos()), false, "the constructor no longer stores the parameter key")
+	}
+	m := c.P.MustFunc("mux.(*headerVersion).Match")
+	k := 0
+	for _, fn := range builderCluster(c, m) {
+		an.AllInstrs(fn, func(in ssa.Instruction) {
+			lk, ok := in.(*ssa.Lookup)
+			if !ok {
+				return
+			}
+			if !strings.HasSuffix(an.AP(lk.Index), ".acceptKey") {
+				return
+			}
+			k++
+			c.R.Add(rule, c.fk(fn), "lookup:params[acceptKey]/comma-ok", c.pos(in), lk.CommaOk, ifelse(lk.CommaOk, "presence of the parameter is the comma-ok bit", "the parameter is read without the comma-ok bit: a media type that does not carry it is treated as version \"\" — accepted (and recorded) when \"\" is a listed version"))
+		})
+	}
+	if k == 0 {
+		c.R.Add(rule, c.fk(m), "lookup:params[acceptKey]/comma-ok", c.P.Pos(m.Pos()), false, "the matcher no longer looks the configured parameter up in the parsed media type")
+	}
+}
